@@ -667,6 +667,46 @@ func main() {
 			if g.Thorough() {
 				gnuValidation(g)
 			}
+			// real timestamps through the default TimeFormat: which survive, exactly
+			const year0, year10000 = -62167219200, 253402300800 // unix seconds of 0000-01-01 and 10000-01-01 (UTC)
+			secs := []int64{0, -1, 1, 1700000000, -62135596800, -62135596801, -62135596799, year0, year0 - 1, year0 + 1, year10000 - 1, year10000, year10000 + 1,
+				951782400 /* 2000-02-29 */, 4107542399 /* 2100-02-28 23:59:59 */, 68169599 /* 1972-02-29 */, -2208988800 /* 1900-01-01 */}
+			nsecs := []int64{0, 0, 1, 999, 1000, 1001, 500000000, 999999000, 999999999, 123456789, 120000000}
+			offs := []int{0, 0, 60, -60, 3600, -3600, 19800, -34200, 45900, 3630, -3630, 59, -59, 1172, 86340, 86400, 89940, 90000, -89940, -90000, 360000, -86400}
+			for i := 0; i < g.Scale(1500, 30000); i++ {
+				sec := tr.Pick(g.R, secs)
+				switch g.R.Intn(4) {
+				case 0:
+					sec = year0 + int64(g.R.Uint64()%uint64(year10000-year0))
+				case 1:
+					sec += int64(g.R.Range(-100000, 100000))
+				}
+				nsec := tr.Pick(g.R, nsecs)
+				if g.R.Chance(1, 3) {
+					nsec = int64(g.R.Intn(1000000000))
+				}
+				off := tr.Pick(g.R, offs)
+				switch g.R.Intn(4) {
+				case 0:
+					off = 60 * g.R.Range(-1500, 1500)
+				case 1:
+					off = g.R.Range(-91000, 91000)
+				}
+				tags := []string{"timestamp"}
+				local := sec + int64(off)
+				if local < year0 || local >= year10000 {
+					tags = append(tags, "stamp-year-outside-0..9999")
+				}
+				if off%60 != 0 {
+					tags = append(tags, "stamp-zone-with-seconds")
+				}
+				if nsec%1000 != 0 {
+					tags = append(tags, "stamp-sub-microsecond")
+				}
+				if out := g.Emit(fmt.Sprintf("Z %d %d %d", sec, nsec, off), true, tags...); out == "same" {
+					g.W.Count("stamp-survives", 1)
+				}
+			}
 			// git wrappers
 			junk0 := []string{"diff --git a/f b/f", "index 83a4f1..9bc2d0 100644", "new file mode 100644", "similarity index 90%", "deleted file mode 100644", "old mode 100644"}
 			for i := 0; i < g.Scale(600, 15000); i++ {
